@@ -2,6 +2,9 @@
 from .common import *
 from .pxcommon import *
 from . import c08
+from . import c15 as _c15
+from . import c16 as _c16
+_c16_IDENT = [f2b(1.0), 0, 0, f2b(1.0), 0, 0]
 
 ID = "C11"
 PROPS_FILES = ["Props/C11"]
@@ -24,19 +27,33 @@ def gen_cases(rng, tier):
     for g in range(n):
         mode = rng.randrange(29)
         hq = rng.random() < 0.4
-        kind = rng.choice([1, 1, 2])
+        kind = rng.choice([1, 1, 2, 3])
         color = rand_color(rng)
         w = rng.choice([1, 3, 17])
         x = rng.randint(0, w - 1)
+        if kind == 3 and (w < 2 or x < 1):
+            w, x = 3, rng.choice([1, 2])
+        a0 = rng.choice([0, 255, rng.randint(1, 254)])   # blit_anti_h2: the target is the second pixel, its neighbour gets a0
         row = [rand_premul(rng) + (255,) for _ in range(w)]
         for cv in COVS:
-            if kind == 1:
+            if kind == 3:
+                s, a = px_case(3, mode, hq, True, color, False, x - 1, 2, row, [a0, cv])
+            elif kind == 1:
                 s, a = px_case(1, mode, hq, True, color, False, x, 1, row, [cv])
             else:
                 s, a = px_case(2, mode, hq, True, color, False, x, 1, row, [cv])
             cases.append((s, a + [-777, g, x, cv]))
         s, a = px_case(0, mode, hq, True, color, False, x, 1, row)
         cases.append((s, a + [-777, g, x, 999]))
+    # shader opacity: a constant-colour Pattern with opacity, anti-aliased fill (pat_px kind 2): edge = interior x coverage
+    for i in range(120 if tier == "quick" else 1500):
+        w, h = rng.choice([(8, 8), (12, 6), (5, 9)])
+        sw, sh = rng.choice([(1, 1), (4, 4), (8, 3)])
+        op = rng.choice([1.0, 0.5, 0.2, 0.75, 0.05, round(rng.random(), 3)])
+        cases.append(("pat_px", [2, sw, sh, rng.getrandbits(40), 1, 0, 0] + list(_c16_IDENT) + [rng.randrange(3), rng.randrange(3), f2b(op), rng.randrange(2), 0, w, h]))
+    # shader opacity: gradients drawn after Shader::apply_opacity sequences (none | 1.0 | 0.5, 1.0 | 0.5), judged by the
+    # C15 reference with the stop alphas scaled by the product
+    cases += [c for c in _c15.gen_cases(rng, tier) if c[0] == "grad_px" and c[1][8] >= 2][:400 if tier == "quick" else 5000]
     return cases
 
 
@@ -47,6 +64,10 @@ def strip(args):
 def oracle(suite, args, out):
     if out.startswith(("PANIC", "CRASH", "HANG")):
         return "implementation did not return: " + out[:200]
+    if suite == "grad_px":
+        return _c15.oracle(suite, args, out)
+    if suite == "pat_px":
+        return _c16.oracle(suite, args, out)
     return None
 
 
@@ -103,8 +124,17 @@ def post_oracle(cases, outs):
 
 
 def relation(suite, args, mo, io):
+    if suite == "pat_px":
+        return _c16.relation(suite, args, mo, io)
+    if suite == "grad_px":
+        return _c15.relation(suite, args, mo, io)
     return c08.relation(suite, strip(args), mo, io)
 
 
 def nontrivial_tag(suite, args, out):
+    if suite == "pat_px":
+        o = out.split()
+        return "pattern-opacity" if o and o[0].isdigit() and int(o[0]) > 0 else None
+    if suite == "grad_px":
+        return _c15.nontrivial_tag(suite, args, out)
     return c08.nontrivial_tag(suite, strip(args), out)
